@@ -119,15 +119,16 @@ claim('C26', 'declared operator table (typed HIR of init_builtin_classes) vs abs
 
 claim('C03', 'row-by-row soundness of the comparison-atom arms of is_super_pred_of under a three-orderings model; quantifier structure of the And/Or arms',
       'Decides (R1) that each atom x atom row (Equal/NotEqual/GreaterEqual/LessEqual on both sides) answers "super" only when the set of integers really is a superset, for every '
-      'ordering of the two constants (complete for the 14 rows; the truth tables of TyParamOrdering::is_lt/canbe_le/... are read from the source), and (R2) that the And arm '
-      'quantifies over the super side and the Or arm over the sub side.',
+      'ordering of the two constants (complete for the 14 rows; the truth tables of TyParamOrdering::is_lt/canbe_le/... are read from the source), (R2) that the And arm '
+      'quantifies over the super side and the Or arm over the sub side, and (comb, shared with C32) that the predicate constructors and / or keep every conjunct / disjunct.',
       'reduce_preds, Not, General* predicates and the interplay with unification are not decided (e.g. `not (I <= 5)` refinements are accepted for any argument today: outside these rules).',
       'DESIGN.md §3 C03')
 
-claim('C32', 'table rule over the resolved arms of Predicate::invert / and / or under the three-orderings model',
-      'Decides the comparison-atom rows of invert (each must denote the complement) and the TRUE/FALSE rows and the Equal-or-GreaterEqual short-cut of and/or, exhaustively for those rows '
-      '(2 known findings: General<=/>= are inverted to each other).',
-      'Nested predicate trees, Or-sets and absorption are not decided.',
+claim('C32', 'table rule over the resolved arms of Predicate::invert / and / or under the three-orderings model; propositional equivalence (truth tables) of the arms and branches of and / or',
+      'Decides the comparison-atom rows of invert (each must denote the complement), the TRUE/FALSE rows and the Equal-or-GreaterEqual short-cut of and/or, exhaustively for those rows '
+      '(2 known findings: General<=/>= are inverted to each other), and that every arm / branch of Predicate::and and Predicate::or in the propositional fragment returns the '
+      'conjunction / disjunction of its arguments under the equalities its branch conditions state.',
+      'Or-sets (treated as opaque atoms) and the arithmetic short-cuts other than Equal-or-GreaterEqual are not decided.',
       'DESIGN.md §3 C32')
 
 claim('C17', 'table agreement across crates: characters produced by the lexer escape arms vs the replace chain of PyScriptGenerator::escape_str; typestate rule on the fresh-name counter',
